@@ -82,6 +82,8 @@ type CtrlCfg struct {
 	Faults       map[int]string                                         // wake index -> "err" | "panic"
 	ResetAt      int                                                    // call ResetRestartBackoff on this wake (if > 0)
 	Script       func(ctx context.Context, r controller.Runtime, n int) `json:"-"` // optional extra behaviour on each wake (C08)
+	// InputsHook, if set, runs inside Inputs() (i.e. while the runtime is in the middle of registering the controller)
+	InputsHook func() `json:"-"`
 }
 
 // QCfg configures a probe controller.QController.
@@ -361,7 +363,13 @@ type Probe struct {
 func (p *Probe) Name() string { return p.cfg.Name }
 
 // Inputs implements controller.Controller.
-func (p *Probe) Inputs() []controller.Input { return slices.Clone(p.cfg.Inputs) }
+func (p *Probe) Inputs() []controller.Input {
+	if p.cfg.InputsHook != nil {
+		p.cfg.InputsHook()
+	}
+
+	return slices.Clone(p.cfg.Inputs)
+}
 
 // Outputs implements controller.Controller.
 func (p *Probe) Outputs() []controller.Output { return slices.Clone(p.cfg.Outputs) }
